@@ -33,6 +33,7 @@ theorem verdict : (classify Generated.factsC22).Sound (Holds Generated.factsC22)
 #print axioms Values.refutes_empty_neg_zero
 #print axioms Values.void_overwrite_keeps_old_value
 #print axioms Values.refutes_void_keeps
+#print axioms Values.profile_field_update
 #print axioms Hv.SdkValues.intHops_id
 #print axioms Hv.SdkValues.wrap_id
 
